@@ -157,3 +157,74 @@ def digest(observed):
     items = sorted((list(k), v) for k, v in observed.items())
     return hashlib.blake2b(json.dumps(items, default=repr).encode(),
                            digest_size=8).hexdigest()
+
+
+# ---------------------------------------------------------------------------
+# overrides / inputs
+# ---------------------------------------------------------------------------
+
+VALUE_POOL = [5.0, -3.0, 0.0, 12.0, 100.0, 2.5, 'txt', 'Q', '', True, False,
+              '#N/A', '#DIV/0!', 7.0, 1.0, 9.0]
+
+
+def py_value(v):
+    """description constant -> value handed to the library"""
+    if isinstance(v, str) and v.startswith('#'):
+        return xl.err(v)
+    return v
+
+
+def canon_value(v):
+    if isinstance(v, str) and v.startswith('#'):
+        return xl.c_err(v)
+    return xl.canon(v)
+
+
+def constant_cells(desc):
+    out = []
+    for b, s, addr, cell in gw.iter_cells(desc):
+        if 'v' in cell:
+            out.append((b, s) + gw.split_addr(addr))
+    return out
+
+
+def formula_cells(desc, with_arrays=False):
+    out = []
+    for b, s, addr, cell in gw.iter_cells(desc):
+        if 'f' in cell and ('arr' not in cell or with_arrays):
+            out.append((b, s) + gw.split_addr(addr))
+    return out
+
+
+def node_key(desc, key):
+    """library node id of a cell key (array anchors -> their range id)."""
+    b, s, c, r = key
+    cell = desc['books'][b]['sheets'][s]['cells'].get('%s%d' % (
+        gw.col_name(c), r))
+    if cell and 'arr' in cell:
+        return gw.rect_key(desc, b, s, *cell['arr'])
+    return gw.key_of(desc, *key)
+
+
+def observed_outputs(desc, sol_or_list, out_keys, node_ids):
+    """Values of requested cell outputs from a solution mapping or from the
+    list a compiled function returns (same order as node_ids)."""
+    if isinstance(sol_or_list, dict) or hasattr(sol_or_list, 'items'):
+        get = lambda n: sol_or_list.get(n)
+    else:
+        vals = sol_or_list if isinstance(sol_or_list, (list, tuple)) else [sol_or_list]
+        m = dict(zip(node_ids, vals))
+        get = lambda n: m.get(n)
+    out = {}
+    for key, n in zip(out_keys, node_ids):
+        v = get(n)
+        if v is None:
+            out[key] = ('missing',)
+        else:
+            try:
+                out[key] = xl.canon(xl.unwrap(v))
+                if out[key][0] == 'arr' and len(out[key]) == 2 and len(out[key][1]) == 1:
+                    out[key] = out[key][1][0]
+            except Exception as ex:
+                out[key] = ('foreign', type(ex).__name__)
+    return out
